@@ -1,16 +1,8 @@
 #!/bin/sh
-# MANIFEST.setup_cmd: build every flavour of the harness once, offline, from files on disk.
-# (Checks rebuild incrementally from /repo's working tree on every run; this only warms the caches.)
-set -u
-cd "$(dirname "$0")/harness" || exit 1
+# MANIFEST.setup_cmd: build, offline and from files on disk only, every (flavour, binary) pair that a
+# leg in legs.py needs (native debug/release, miri, tsan, asan). Checks rebuild incrementally from
+# /repo's working tree on every run; this only warms the caches so that quick checks are quick.
+# VERIF_SETUP_SKIP=tsan,asan skips flavours.
+cd "$(dirname "$0")" || exit 1
 export CARGO_NET_OFFLINE=true
-cp /repo/Cargo.lock Cargo.lock.repo 2>/dev/null || true
-echo "== native debug";   RUSTFLAGS="--cfg metrique_verif" cargo build --offline --target-dir target/native --bins 2>&1 | tail -2
-echo "== native release"; RUSTFLAGS="--cfg metrique_verif" cargo build --offline --release --target-dir target/native --bins 2>&1 | tail -2
-echo "== miri";           RUSTFLAGS="--cfg metrique_verif" MIRIFLAGS="-Zmiri-disable-isolation" cargo +nightly miri run --offline --target-dir target/miri --bin c00_selftest 2>&1 | tail -2
-if [ "${VERIF_SETUP_SANITIZERS:-1}" = "1" ]; then
-echo "== tsan";           RUSTFLAGS="--cfg metrique_verif -Zsanitizer=thread" cargo +nightly build --offline -Zbuild-std --target x86_64-unknown-linux-gnu --target-dir target/tsan --bins 2>&1 | tail -2
-echo "== asan";           RUSTFLAGS="--cfg metrique_verif -Zsanitizer=address -Cforce-frame-pointers=yes" cargo +nightly build --offline --target x86_64-unknown-linux-gnu --target-dir target/asan --bins 2>&1 | tail -2
-fi
-rm -f Cargo.lock.repo
-exit 0
+exec ./check --setup
